@@ -18,6 +18,41 @@ use xor_name::XorName;
 
 const SELF: u8 = 1;
 
+/// The routing table of every C03 node: fixture peers 2..=45 (more than K, so that "known" and "close" differ).
+const TABLE: std::ops::RangeInclusive<u8> = 2..=45;
+const STRANGER: u8 = 200;
+
+/// Fixture ids by role, computed once on a probe node: three peers among the node's K closest, one known peer outside them.
+pub struct Payees {
+    pub p2: u8,
+    pub p3: u8,
+    pub p4: u8,
+    pub far: u8,
+}
+
+pub fn payees() -> &'static Payees {
+    static P: std::sync::OnceLock<Payees> = std::sync::OnceLock::new();
+    P.get_or_init(|| {
+        let root = fresh_scratch("c03-probe");
+        let mut rig = crate::driver_rig::DriverRig::new_node(SELF, &root);
+        // (a k-bucket holds 20 entries: a few of the 44 inserts into the farthest bucket may be refused; only peers that
+        // did get in count as known)
+        let mut known: Vec<u8> = vec![];
+        for (i, id) in TABLE.enumerate() {
+            if rig.driver.verif_add_peer(rigs::fixtures::peer_id(id), format!("/ip4/127.0.0.1/udp/{}/quic-v1", 20000 + i).parse().unwrap()) {
+                known.push(id);
+            }
+        }
+        let close = rig.driver.verif_closest_k_value_local_peers();
+        let inside: Vec<u8> = known.iter().cloned().filter(|id| close.contains(&rigs::fixtures::peer_id(*id))).collect();
+        let outside: Vec<u8> = known.iter().cloned().filter(|id| !close.contains(&rigs::fixtures::peer_id(*id))).collect();
+        assert!(inside.len() >= 3 && !outside.is_empty(), "probe: {} close, {} far", inside.len(), outside.len());
+        drop(rig);
+        let _ = std::fs::remove_dir_all(&root);
+        Payees { p2: inside[0], p3: inside[1], p4: inside[2], far: outside[0] }
+    })
+}
+
 #[derive(Clone, Copy, Debug, PartialEq, Eq)]
 pub enum Kind {
     Chunk,
@@ -39,6 +74,9 @@ pub struct Case {
     pub sig: usize,      // 0 authentic, 1 one forged, 2 one signed by another key
     pub self_payee: bool,
     pub all_close: bool,
+    /// when not all payees are close: the odd one is a peer the node knows (it is in the routing table) but that is not
+    /// among its K closest, instead of a complete stranger
+    pub far_known: bool,
     pub age: usize,      // 0 fresh, 1 two hours old, 2 one hour in the future
     pub chain: usize,    // 0 paid, 1 unpaid, 2 rpc error, 3 http 503, 4 http 429, 5 connection closed
     pub own_quote_for_address: bool,
@@ -106,13 +144,14 @@ pub fn build_proof(c: &Case, key: &RecordKey) -> (ant_evm::ProofOfPayment, Vec<[
         _ => now + Duration::from_secs(3600),
     };
     // payees: this node (or peer 4 instead), peer 2, peer 3 (or stranger 9 instead)
-    let own = if c.self_payee { SELF } else { 4 };
-    let third = if c.all_close { 3 } else { 9 };
+    let pp = payees();
+    let own = if c.self_payee { SELF } else { pp.p4 };
+    let third = if c.all_close { pp.p3 } else if c.far_known { pp.far } else { STRANGER };
     let own_ts = if c.age_on_own { ts_of(c.age) } else { ts_of(0) };
     let other_ts = if c.age_on_own { ts_of(0) } else { ts_of(c.age) };
     let own_q = rec::quote(own, if c.own_quote_for_address { addr } else if c.own_quote_zero { XorName::default() } else { other_addr }, own_ts);
-    let mut q2 = rec::quote(2, addr, other_ts);
-    let listed2 = 2u8;
+    let mut q2 = rec::quote(pp.p2, addr, other_ts);
+    let listed2 = pp.p2;
     match c.sig {
         1 => q2.signature[5] ^= 0x40,
         2 => q2 = rec::quote(8, addr, other_ts), // signed (and keyed) by identity 8 but listed under peer 2
@@ -122,7 +161,7 @@ pub fn build_proof(c: &Case, key: &RecordKey) -> (ant_evm::ProofOfPayment, Vec<[
     let hashes = vec![own_q.hash().0, q2.hash().0, q3.hash().0];
     if c.sig == 3 {
         // peer 2 listed twice: a quote that does not verify for it, followed by a genuine one
-        let mut bad = rec::quote(2, addr, other_ts);
+        let mut bad = rec::quote(pp.p2, addr, other_ts);
         bad.signature[7] ^= 0x01;
         return (rec::proof(vec![(own, own_q), (listed2, bad), (listed2, q2), (third, q3)]), hashes);
     }
@@ -131,7 +170,7 @@ pub fn build_proof(c: &Case, key: &RecordKey) -> (ant_evm::ProofOfPayment, Vec<[
 
 fn describe(c: &Case) -> serde_json::Value {
     json!({"kind": format!("{:?}", c.kind), "prior": format!("{:?}", c.prior),
-        "signatures": (["authentic", "one forged", "one signed by another key", "a payee listed twice, its first quote forged"][c.sig]), "self_among_payees": c.self_payee, "all_payees_close": c.all_close,
+        "signatures": (["authentic", "one forged", "one signed by another key", "a payee listed twice, its first quote forged"][c.sig]), "self_among_payees": c.self_payee, "all_payees_close": c.all_close, "odd_payee": (if c.all_close { "-" } else if c.far_known { "known but outside the K closest" } else { "stranger" }),
         "age": (["fresh", "2h old", "1h in the future"][c.age]), "age_defect_on_own_quote": c.age_on_own,
         "chain": (["paid", "unpaid", "rpc error", "http 503 on every attempt", "http 429 on every attempt", "connection closed on every attempt"][c.chain]), "own_quote_for_this_address": c.own_quote_for_address, "own_quote_content_all_zero": c.own_quote_zero})
 }
@@ -151,7 +190,7 @@ fn stored_matches(kind: Kind, stored: &[u8], up: &Upload) -> bool {
 pub fn run_case(run: &Run, stub: &Arc<EvmStub>, c: &Case) {
     let root = fresh_scratch("c03");
     let mut rig = NodeRig::new(SELF, &root, stub.clone());
-    rig.add_peers(&[2, 3, 4, 8]);
+    rig.add_peers(&TABLE.collect::<Vec<u8>>());
     let up = upload_for(c.kind);
     // prior content arrives through replication (no payment involved)
     stub.set(Chain::Paid);
@@ -251,7 +290,7 @@ fn unpaid_cases(run: &Run, stub: &Arc<EvmStub>) {
             }
             let root = fresh_scratch("c03u");
             let mut rig = NodeRig::new(SELF, &root, stub.clone());
-            rig.add_peers(&[2, 3]);
+            rig.add_peers(&TABLE.collect::<Vec<u8>>());
             match prior {
                 Prior::Absent => {}
                 Prior::SameVersion => {
@@ -288,8 +327,8 @@ fn unpaid_cases(run: &Run, stub: &Arc<EvmStub>) {
 
 pub fn cases(quick: bool) -> Vec<Case> {
     let mut v = vec![];
-    enumerate::product(&[4, 2, 2, 3, 6, 3, 4, 3, 2], |ix| {
-        let c = Case { sig: ix[0], self_payee: ix[1] == 0, all_close: ix[2] == 0, age: ix[3], chain: ix[4], own_quote_for_address: ix[5] == 0, own_quote_zero: ix[5] == 2, kind: KINDS[ix[6]], prior: [Prior::Absent, Prior::SameVersion, Prior::OtherVersion][ix[7]], age_on_own: ix[8] == 1 };
+    enumerate::product(&[4, 2, 3, 3, 6, 3, 4, 3, 2], |ix| {
+        let c = Case { sig: ix[0], self_payee: ix[1] == 0, all_close: ix[2] == 0, far_known: ix[2] == 2, age: ix[3], chain: ix[4], own_quote_for_address: ix[5] == 0, own_quote_zero: ix[5] == 2, kind: KINDS[ix[6]], prior: [Prior::Absent, Prior::SameVersion, Prior::OtherVersion][ix[7]], age_on_own: ix[8] == 1 };
         if c.age == 0 && c.age_on_own {
             return; // no age defect: the placement flag is irrelevant
         }
@@ -317,7 +356,7 @@ pub fn cases(quick: bool) -> Vec<Case> {
 pub fn main(tier: Option<&str>) {
     let run = Run::new("C03", "model_checking", tier);
     run.rule(
-        "product of six payment conditions (signatures 4 (incl. a payee listed twice with a forged first quote) x self-payee 2 x closeness 2 x age 3 (on another payee's or on the own quote) x \
+        "product of six payment conditions (signatures 4 (incl. a payee listed twice with a forged first quote) x self-payee 2 x closeness 3 (all close / a stranger / a routing-table peer outside the K closest, on a node that knows 44 peers) x age 3 (on another payee's or on the own quote) x \
          chain answer 6 (paid, unpaid, JSON-RPC error, HTTP 503 / 429 / connection closed on every attempt) x quoted address 3 (this address, another address, the all-zero content)) x kind 4 x prior content 3; quick = full product for chunks on an empty store + every single \
          and double fault for the other kinds + single faults on held keys, thorough = full product. Each case runs the real \
          Node::validate_and_store_record on a fresh real SwarmDriver under the default (FIFO) schedule to quiescence, the payment \
